@@ -419,6 +419,19 @@ pub fn run(o: &Opts) -> Report {
         };
         rep.case(&line, true);
         rep.hit(&format!("transform_{kind}"));
+        // tie 2 for the models of the drivers themselves (LTr.applyPredictor / applyColor / applySubGreen,
+        // for which C01.predictor_transform_is_spec etc. are proved)
+        if kind != "index" {
+            if let Ok(out) = &got {
+                let f: Vec<&str> = line.split(' ').collect();
+                let mline = format!("ltr {kind} {} {} {} {} {}", f[2], f[3], f[4], f[5], f[6]);
+                let m = drv.ask(&mline);
+                rep.hit(&format!("transform_{kind}_driver_model"));
+                if hex(out) != m {
+                    rep.disagree(Disagreement { case: mline, got: hex(out), expected: m, class: "correspondence", obligation: format!("tie2: the {kind} inverse-transform driver of lossless_transform.rs = its model in Model/LosslessTransforms.lean"), detail: String::new() });
+                }
+            }
+        }
         let exp = drv.ask(&line);
         let gots = match &got { Ok(b) => hex(b), Err(m) => format!("PANIC/ERR {m}") };
         if gots != exp {
